@@ -13,12 +13,14 @@ const MAX: usize = 5;
 struct Backend<'a> {
     calls: &'a Cell<usize>,
     ptrs: &'a RefCell<Vec<*const String>>,
+    ctxs: &'a RefCell<Vec<context::Context>>,
     results: &'a [Option<u32>],
 }
 impl<'a> Stub for Backend<'a> {
     type Req = Arc<String>;
     type Resp = u32;
-    async fn call(&self, _: context::Context, r: Arc<String>) -> Result<u32, RpcError> {
+    async fn call(&self, ctx: context::Context, r: Arc<String>) -> Result<u32, RpcError> {
+        self.ctxs.borrow_mut().push(ctx);
         let k = self.calls.get();
         self.calls.set(k + 1);
         self.ptrs.borrow_mut().push(Arc::as_ptr(&r));
@@ -44,6 +46,7 @@ fn retry_exhaustive_up_to_max_attempts() {
             let results: Vec<Option<u32>> = (0..n).map(|i| if pattern & (1 << i) != 0 { Some(100 + i as u32) } else { None }).collect();
             let calls = Cell::new(0usize);
             let ptrs = RefCell::new(vec![]);
+            let ctxs = RefCell::new(vec![]);
             let attempts = RefCell::new(vec![]);
             let seen_ok = RefCell::new(vec![]);
             let policy = |r: &Result<u32, RpcError>, i: u32| {
@@ -51,7 +54,7 @@ fn retry_exhaustive_up_to_max_attempts() {
                 seen_ok.borrow_mut().push(r.as_ref().ok().copied());
                 (i as usize) < n
             };
-            let retry = Retry::new(Backend { calls: &calls, ptrs: &ptrs, results: &results }, policy);
+            let retry = Retry::new(Backend { calls: &calls, ptrs: &ptrs, ctxs: &ctxs, results: &results }, policy);
             let out = futures::executor::block_on(retry.call(ctx, "req".to_string()));
             evaluations += 1;
             assert_eq!(calls.get(), n, "one backend call per attempt until the policy declines");
@@ -59,6 +62,13 @@ fn retry_exhaustive_up_to_max_attempts() {
             assert!(ptrs.borrow().windows(2).all(|w| w[0] == w[1]), "identical request (same Arc) on every attempt");
             assert_eq!(*seen_ok.borrow(), results, "the policy sees each attempt's own result");
             assert_eq!(out.ok(), results[n - 1], "the last result is returned unchanged");
+            // C07 / C18 / C20: every attempt is made under the caller's own context -- the deadline is not stretched, the trace context is the caller's
+            for (k, c) in ctxs.borrow().iter().enumerate() {
+                if c.deadline != ctx.deadline || c.trace_context != ctx.trace_context {
+                    println!("VERIF-FAIL C07/C18/C20: attempt {} of {n} (caller's deadline {}) was made with deadline {:?} later than the caller's and trace context {:?} (caller's {:?})", k + 1, if elapsed { "already passed" } else { "ahead" }, c.deadline.checked_duration_since(ctx.deadline), c.trace_context, ctx.trace_context);
+                    panic!("C07/C18/C20: attempt {} was not made under the caller's context", k + 1);
+                }
+            }
         }
     }
     println!("VERIF-BOUNDED retry evaluations={evaluations} bound=attempts<={MAX}");
